@@ -14,7 +14,7 @@ import (
 
 var weights = map[string]int{
 	"next": 8, "extend": 4, "lookup": 4, "derivePath": 3, "markUsed": 3, "lock": 3, "unlock": 4, "changePass": 1,
-	"newAccount": 2, "newWOAcct": 2, "rename": 1, "importKey": 2, "importScript": 1, "importPubKey": 1, "newScope": 1, "restart": 2,
+	"newAccount": 2, "newWOAcct": 2, "rename": 1, "invalidate": 1, "importKey": 2, "importScript": 1, "importPubKey": 1, "newScope": 1, "restart": 2,
 }
 
 func TestC03Addresses(t *testing.T) {
